@@ -317,7 +317,8 @@ class _Stop(Exception):
     pass
 
 
-def run_given(module, sub: Sub, ctx: Ctx, n: int, seed: int, known, wall_budget: float):
+def make_given_test(module, sub: Sub, ctx: Ctx, n: int, seed: int, known, wall_budget: float):
+    """Returns (hypothesis test function, stats, state); shared by the Hypothesis driver and the atheris amplifier."""
     from hypothesis import given
     from hypothesis import seed as hseed
 
@@ -340,6 +341,11 @@ def run_given(module, sub: Sub, ctx: Ctx, n: int, seed: int, known, wall_budget:
                 st["last"] = (desc, v)
                 raise v
 
+    return test, stats, st
+
+
+def run_given(module, sub: Sub, ctx: Ctx, n: int, seed: int, known, wall_budget: float):
+    test, stats, st = make_given_test(module, sub, ctx, n, seed, known, wall_budget)
     try:
         test()
     except _Stop:
@@ -578,6 +584,35 @@ def run_property(module, tier: str, seed: int, only: list[str] | None = None) ->
             path = write_replay(prop, viol)
             violations.append((os.path.relpath(path, VERIF), viol["bucket"]))
 
+    # 2b. coverage-guided amplifier (thorough tier only, modules that declare AMPLIFY)
+    amplifier = []
+    amp = getattr(module, "AMPLIFY", None)
+    if tier == "thorough" and amp and not only:
+        import subprocess
+
+        procs = []
+        for subname, runs, copies in amp:
+            for k in range(copies):
+                env = dict(os.environ, VERIF_SEED=str(seed * 1009 + k + 1))
+                cmd = [sys.executable, "-m", "vf.fuzz", prop, "--sub", subname, "--runs", str(runs)]
+                procs.append((subname, k, subprocess.Popen(cmd, cwd=VERIF, env=env, stdout=subprocess.PIPE, stderr=subprocess.DEVNULL, text=True)))
+        for subname, k, pr in procs:
+            out, _ = pr.communicate()
+            rec = {"sub": subname, "copy": k, "exit": pr.returncode}
+            for ln in out.splitlines():
+                if ln.startswith("AMPLIFIER"):
+                    rec["summary"] = ln
+                    for tok in ln.split():
+                        if tok.startswith("executions="):
+                            rec["executions"] = int(tok.split("=")[1])
+                        if tok.startswith("distinct_nontrivial="):
+                            rec["distinct_nontrivial"] = int(tok.split("=")[1])
+                if ln.startswith("VIOLATION") and "replay=" in ln:
+                    violations.append((ln.split("replay=")[1].split()[0], ln.split("#")[-1].strip()))
+            if pr.returncode not in (0, 1):
+                harness_errors.append((f"amplifier:{subname}", f"vf.fuzz exited {pr.returncode}"))
+            amplifier.append(rec)
+
     # 3. evidence
     total = Stats()
     for s in per_sub.values():
@@ -633,6 +668,13 @@ def run_property(module, tier: str, seed: int, only: list[str] | None = None) ->
     if ev["level"] == "translation_validation":
         ev["coverage"]["programs"] = total.counts.get("programs", total.evaluations)
         ev["coverage"]["disagreements_checked"] = total.counts.get("disagreements_checked", 0)
+    if amplifier:
+        ev["coverage"]["amplifier"] = {
+            "tool": "atheris/libFuzzer over hypothesis fuzz_one_input, solvor instrumented for coverage",
+            "executions": sum(r.get("executions", 0) for r in amplifier),
+            "runs": amplifier,
+        }
+        ev["coverage"]["evaluations"] += ev["coverage"]["amplifier"]["executions"]
     extra = getattr(module, "evidence_extra", None)
     if extra:
         ev["coverage"].update(extra(total, per_sub))
